@@ -69,7 +69,7 @@ func GenLayout(t *rapid.T, o Opts) Layout {
 	if o.MaxPeriods == 0 {
 		o.MaxPeriods = 10
 	}
-	l := Layout{Kind: rapid.SampledFrom(o.Kinds).Draw(t, "kind")}
+	l := Layout{Kind: o.Kinds[Uniform(t, "kind", len(o.Kinds))]}
 	l.NSSlices = rapid.IntRange(1, 4).Draw(t, "ns_slices")
 	if l.Kind != "" {
 		l.RuleSlices = genSliceList(t, "rule_slices", l.NSSlices, true)
@@ -280,5 +280,25 @@ func genDateRanges(t *rapid.T, l *Layout, maxPeriods int) {
 			l.DateRange = append(l.DateRange, format(cur)+"-"+format(end))
 		}
 		cur = step(end, 1)
+	}
+}
+
+// Uniform draws an integer in [0,n) without rapid's bias towards small values
+// (rapid.IntRange and rapid.SampledFrom favour the first alternatives, which
+// starves the later classes of a weighted choice). n <= 100.
+func Uniform(t *rapid.T, label string, n int) int {
+	if n <= 1 {
+		return 0
+	}
+	if n <= 12 {
+		return rapid.Permutation(seq(n)).Draw(t, label)[0]
+	}
+	for {
+		v := Uniform(t, label+"_hi", (n+9)/10)*10 + Uniform(t, label+"_lo", 10)
+		if v < n {
+			return v
+		}
+		// out of range only for n that is not a multiple of 10: fold instead of rejecting
+		return v % n
 	}
 }
